@@ -48,6 +48,13 @@ int save_svalue_depth = 0;
 int save_max_depth;
 int *save_svalue_sizes = 0;
 
+/* "%g", but 1.0 is written as "1.0" and not "1", which would come back as an integer */
+static void real_to_text (double d, char *buf) {
+  sprintf (buf, "%g", d);
+  if (!strpbrk (buf, ".en"))	/* no fraction, no exponent, not inf/nan */
+    strcat (buf, ".0");
+}
+
 /**
  * Calculate the size needed to save an svalue_t.
  */
@@ -139,7 +146,7 @@ size_t svalue_save_size (const svalue_t * v) {
     case T_REAL:
       {
         char buf[256];
-        sprintf (buf, "%g", v->u.real);
+        real_to_text (v->u.real, buf);
         return strlen (buf) + 1; /* 1 for comma/colon */
       }
 
@@ -242,7 +249,7 @@ void save_svalue (svalue_t * v, char **buf) {
 
     case T_REAL:
       {
-        sprintf (*buf, "%g", v->u.real);
+        real_to_text (v->u.real, *buf);
         (*buf) += strlen (*buf);
         return;
       }
